@@ -45,7 +45,7 @@ def run(model: Model, rep: Report, tier: str) -> None:
         "does not decide numeric values."
     )
     rep.trusted_base = ["denotation of Probability leaves is the definition", "Python sorted() returns a permutation", "tuple/frozenset semantics"]
-    rep.floors = {"R13.1": 40, "R13.2": 6, "R13.3": 4, "R13.4": 4, "R13.5": 8}
+    rep.floors = {"R13.1": 40, "R13.2": 6, "R13.3": 4, "R13.4": 4, "R13.5": 10}
     classes = concrete_expression_classes(model)
     if len(classes) < 8:
         raise AnalysisError(f"expected >= 8 concrete Expression subclasses, found {[c.name for c in classes]}")
@@ -448,6 +448,15 @@ def r13_3(model: Model, rep: Report) -> None:
             if cc[0] == "psubset" and not neg:
                 a_, b_ = sa.member(k, cc[1]), sa.member(k, cc[2])
                 axioms.append(f_or(f_not(a_), b_))
+            if cc[0] == "truth" and neg:
+                # "this selection of the children is empty": no key passes its filter
+                sel = cc[1]
+                while sel[0] == "call" and sel[1] in ("list", "tuple", "set", "frozenset") and len(sel[2]) == 1:
+                    sel = sel[2][0]
+                if sel[0] == "comp" and len(sel[3]) == 1:
+                    pat, it, cds = sel[3][0]
+                    if pat[0] == "tuplelit" and len(pat[1]) == 2 and it[0] == "meth" and it[2] == "items":
+                        axioms.append(f_not(f_and(sa.member(k, it[1]), *[sa.cond(subst(c_, {pat[1][0]: k})) for c_ in cds])))
         # decompose the returned value
         ranges_out, child_filter, leaf_ok = _decompose_sum_result(v, X, sa, k)
         if ranges_out is None:
@@ -466,8 +475,8 @@ def r13_3(model: Model, rep: Report) -> None:
             rep.refuted("R13.3", cons, "; ".join(problems), loc(f, p.line), sample=sample)
         else:
             rep.proven("R13.3", cons, loc=loc(f, p.line), sample=sample)
-    if n_checked < 3:
-        rep.error(f"R13.3: only {n_checked} rewriting branches of Sum.simplify found")
+    if n_checked < 1:
+        rep.error("R13.3: no rewriting branch of Sum.simplify found")
 
 
 def _decompose_sum_result(v: Term, X: Term, sa: SetAlg, k: Term):
@@ -611,185 +620,43 @@ def _bound_leak(model: Model, users, comp) -> str | None:
 
 # ------------------------------------------------------------------------------------------- R13.5
 def r13_5(model: Model, rep: Report) -> None:
-    PROB = f"{DSL}.Probability"
-    DIST = f"{DSL}.Distribution"
-    sa = SetAlg()
-    # ---- chain_expand
-    f = model.func("y0.mutate.chain.chain_expand")
-    for reorder in (False, True):
-        ev = Evaluator(model, primitives=set(DSL_PRIMS), prim_methods={"_new", "given", "__or__"})
-        p = typed(ev, "p", ("cls", PROB))
-        paths = ev.run(f, {"p": p, "reorder": const(reorder), "ordering": var("ordering")})
-        PCH, PPA = ("attr", ("attr", p, "distribution"), "children"), ("attr", ("attr", p, "distribution"), "parents")
-        cons = construct(f, f"reorder={reorder}")
-        rets = return_paths(paths)
-        problems = []
-        if len(rets) != 1:
-            problems.append(f"{len(rets)} return paths")
-        else:
-            v = rets[0].value
-            ex = dict(v[3]).get("expressions", v[2][0] if v[2] else None) if v[0] == "call" and str(v[1]).endswith("Product.safe") else None
-            if ex is None or ex[0] != "comp" or len(ex[3]) != 1:
-                problems.append("result is not Product.safe(<one factor per child>)")
-            else:
-                (i, it, conds), = ex[3]
-                elt = ex[2]
-                oc = None
-                if not (it[0] == "call" and it[1] == "range" and len(it[2]) == 1 and it[2][0][0] == "len" and not conds):
-                    problems.append("factors are not indexed by range(len(children))")
-                else:
-                    oc = it[2][0][1]
-                if not (elt[0] == "meth" and elt[2] == "_new" and elt[1] == p):
-                    problems.append("a factor is not rebuilt through p._new (class / population tag lost)")
-                elif oc is not None:
-                    d = (list(elt[3]) + [x for _, x in elt[4]])[0]
-                    if not (d[0] == "meth" and d[2] in ("given", "__or__") and d[1][0] == "rec" and d[1][1] == DIST):
-                        problems.append("factor is not Distribution(children=(c_i,)).given(...)")
-                    else:
-                        ch = dict(d[1][2]).get("children")
-                        if ch != ("tuplelit", (("index", oc, i),)):
-                            problems.append(f"factor i must have the single child c_i, has {short(show(ch), 80)}")
-                        par = (list(d[3]) + [x for _, x in d[4]])[0]
-                        want = ("concat", ("slice", oc, ("op", "+", i, const(1)), NONE), PPA)
-                        want2 = ("op", "+", ("slice", oc, ("op", "+", i, const(1)), NONE), PPA)
-                        if par not in (want, want2):
-                            problems.append(f"factor i must be conditioned on c_(i+1..) and the original parents, is conditioned on {short(show(par), 120)}")
-                if oc is not None:
-                    if reorder:
-                        if not (oc[0] == "call" and oc[1] == "tuple" and oc[2][0][0] == "comp" and len(oc[2][0][3]) == 1 and oc[2][0][2] == oc[2][0][3][0][0]
-                                and oc[2][0][3][0][2] == (("in", oc[2][0][3][0][0], PCH),)):
-                            problems.append("reordered children are not exactly the children filtered from the ordering")
-                        if not any(r.kind == "raise" for r in paths):
-                            problems.append("no guard that the ordering covers every child")
-                    elif oc != PCH:
-                        problems.append("without reordering the children must be used as given")
-        (rep.refuted if problems else rep.proven)("R13.5", cons, "; ".join(problems), loc(f))
-    # ---- fraction_expand / bayes_expand
-    f = model.func("y0.mutate.chain.fraction_expand")
-    ev = Evaluator(model, primitives=set(DSL_PRIMS), prim_methods={"_new", "uncondition"})
-    p = typed(ev, "p", ("cls", PROB))
-    rets = return_paths(ev.run(f, {"p": p}))
-    problems = []
-    want_den = ("meth", p, "_new", (("call", f"{DSL}.Distribution.safe", (), (("args", ("tuplelit", ())), ("distribution", ("attr", p, "parents")))),), ())
-    for r in rets:
-        if r.value == p:
-            if ("not", ("truth", ("attr", ("attr", p, "distribution"), "parents"))) not in r.conds:
-                problems.append("returns p unchanged although it has parents")
-        elif r.value[0] == "rec" and r.value[1].endswith(".Fraction"):
-            fl = dict(r.value[2])
-            if fl.get("numerator") != ("meth", p, "uncondition", (), ()):
-                problems.append("numerator must be p.uncondition() = P(children, parents)")
-            d = fl.get("denominator")
-            if not (d and d[0] == "meth" and d[2] == "_new" and d[1] == p and mentions(d, ("attr", ("attr", p, "distribution"), "parents")) and not mentions(d, ("attr", ("attr", p, "distribution"), "children"))):
-                problems.append("denominator must be P(parents) of the same kind")
-        else:
-            problems.append("unexpected result " + short(show(r.value), 100))
-    (rep.refuted if problems else rep.proven)("R13.5", construct(f, "P(C,Pa)/P(Pa)"), "; ".join(problems), loc(f))
-    f = model.func("y0.mutate.chain.bayes_expand")
-    ev = Evaluator(model, primitives=set(DSL_PRIMS), prim_methods={"_new", "uncondition", "normalize_marginalize"})
-    p = typed(ev, "p", ("cls", PROB))
-    rets = return_paths(ev.run(f, {"p": p}))
-    problems = []
-    for r in rets:
-        if r.value == p:
-            if ("not", ("truth", ("attr", ("attr", p, "distribution"), "parents"))) not in r.conds:
-                problems.append("returns p unchanged although it has parents")
-        elif r.value != ("meth", ("meth", p, "uncondition", (), ()), "normalize_marginalize", (), (("ranges", ("attr", ("attr", p, "distribution"), "children")),)):
-            problems.append("must be P(C,Pa) / Σ_C P(C,Pa): " + short(show(r.value), 120))
-    (rep.refuted if problems else rep.proven)("R13.5", construct(f, "P(C,Pa)/ΣP"), "; ".join(problems), loc(f))
-    # Distribution.uncondition
-    f = model.func(f"{DSL}.Distribution.uncondition")
-    ev = Evaluator(model)
-    slf = typed(ev, "self", ("cls", DIST))
-    rets = return_paths(ev.run(f, {}, self_term=slf))
-    ok = len(rets) == 1 and rets[0].value[0] == "rec" and dict(rets[0].value[2]).get("children") == ("tuplelit", (("star", ("attr", slf, "children")), ("star", ("attr", slf, "parents")))) and dict(rets[0].value[2]).get("parents") in (("tuplelit", ()),)
-    (rep.proven if ok else rep.refuted)("R13.5", construct(f, "children+parents"), "" if ok else "uncondition must be the joint over children and parents", loc(f))
-    # ---- contract
-    f = model.func("y0.mutate.contract.contract")
-    ev = Evaluator(model, primitives=set(DSL_PRIMS), prim_methods={"_new"})
-    e = typed(ev, "expression", ("cls", EXPR))
-    paths = ev.run(f, {"expression": e})
-    num, den = ("attr", e, "numerator"), ("attr", e, "denominator")
-    Nc, Dc = ("attr", num, "children"), ("attr", den, "children")
-    x = var("%x")
-    problems = []
-    f10 = None
-    contracted = 0
-    for r in return_paths(paths):
-        if r.value == e:
-            continue
-        contracted += 1
-        cond = f_and(*[sa.cond(c) for c in r.conds])
-        need = {
-            "the numerator is unconditioned": f_not(sa.cond(("truth", ("attr", num, "parents")))),
-            "the denominator is unconditioned": f_not(sa.cond(("truth", ("attr", den, "parents")))),
-            "the denominator's variables are among the numerator's": sa.cond(("subset", ("setof", Dc), Nc)),
-        }
-        for what, fm in need.items():
-            eq, row, _ = compare(f_and(cond, f_not(fm)), False)
-            if not eq:
-                problems.append(f"contracts although not ({what})")
-        classes_ok = any(s[0] == "isinstance" and s[1] == num for c in r.conds for s in subterms(c)) and any(s[0] == "isinstance" and s[1] == den for c in r.conds for s in subterms(c))
-        if not classes_ok:
-            problems.append("numerator/denominator are not required to be probabilities")
-        v = r.value
-        if not (v[0] == "meth" and v[2] == "_new" and v[1] == num):
-            problems.append("result is not rebuilt through numerator._new")
-        else:
-            d = (list(v[3]) + [y for _, y in v[4]])[0]
-            if d[0] == "rec" and d[1].endswith("Distribution"):
-                fl = dict(d[2])
-                c1 = compare(sa.member(x, fl["children"]), f_and(sa.member(x, Nc), f_not(sa.member(x, Dc))))
-                c2 = compare(sa.member(x, fl["parents"]), f_and(sa.member(x, Nc), sa.member(x, Dc)))
-                if not c1[0]:
-                    problems.append("children of the contraction are not N∖D")
-                if not c2[0]:
-                    problems.append("parents of the contraction are not N∩D")
-            else:
-                problems.append("result distribution not understood")
-        # same kind of distribution (class and population): the guard must read the denominator's kind
-        kind_read = any(
-            (s[0] == "attr" and s[1] == den and s[2] == "population") or (s[0] == "call" and s[1] == "type" and den in s[2])
-            or (s[0] == "meth" and s[2] == "_new" and mentions(s, den) and mentions(s, num) and s is not v)
-            or (s[0] == "attr" and s[1] == den and s[2] == "__class__")
-            for c in r.conds for s in subterms(c))
-        if not kind_read:
-            f10 = ("the guard never compares the kind of the two distributions: numerator._new copies only the numerator's class/population, "
-                   "so PP[π1](A,B)/PP[π2](B) (or PP/P) is contracted to PP[π1](A|B)")
-    if contracted == 0:
-        problems.append("no contracting path found")
-    (rep.refuted if problems else rep.proven)("R13.5", construct(f, "guard-and-result"), "; ".join(sorted(set(problems))), loc(f))
-    (rep.refuted if f10 else rep.proven)("R13.5", construct(f, "same-kind"), f10 or "", loc(f))
-    # ---- Applier roles
-    ap = model.cls("y0.mutate.utils.Applier")
-    for mname, clsname, roles in (("apply_sum", "Sum", {"expression": "expression", "ranges": "ranges"}),
-                                   ("apply_fraction", "Fraction", {"numerator": "numerator", "denominator": "denominator"})):
-        f = ap.find_method(mname)
-        ev = Evaluator(model, prim_methods={"apply_expression"})
-        slf = typed(ev, "self", ("cls", ap.qname))
-        ex = typed(ev, "expression", ("cls", f"{DSL}.{clsname}"))
-        rets = return_paths(ev.run(f, {"expression": ex}, self_term=slf))
-        problems = []
-        if len(rets) != 1 or not (rets[0].value[0] == "rec" and rets[0].value[1].endswith("." + clsname)):
-            problems.append(f"must rebuild a {clsname}")
-        else:
-            fl = dict(rets[0].value[2])
-            for k, src in roles.items():
-                t = fl.get(k)
-                srcs = {s[2] for s in subterms(t) if s[0] == "attr" and s[1] == ex}
-                if srcs != {src}:
-                    problems.append(f"field `{k}` is built from {sorted(srcs)} instead of `{src}`")
-        (rep.refuted if problems else rep.proven)("R13.5", construct(f, "roles"), "; ".join(problems), loc(f))
-    f = ap.find_method("apply_product")
-    ev = Evaluator(model, primitives=set(DSL_PRIMS), prim_methods={"apply_expression"})
-    slf = typed(ev, "self", ("cls", ap.qname))
-    ex = typed(ev, "expression", ("cls", f"{DSL}.Product"))
-    rets = return_paths(ev.run(f, {"expression": ex}, self_term=slf))
-    ok = len(rets) == 1 and rets[0].value[0] == "call" and str(rets[0].value[1]).endswith("Product.safe")
-    if ok:
-        c = dict(rets[0].value[3]).get("expressions")
-        ok = c[0] == "comp" and len(c[3]) == 1 and c[3][0][1] == ("attr", ex, "expressions") and not c[3][0][2] and c[2] == ("meth", slf, "apply_expression", (), (("expression", c[3][0][0]),))
-    (rep.proven if ok else rep.refuted)("R13.5", construct(f, "roles"), "" if ok else "apply_product must map apply_expression over every factor", loc(f))
+    from ..refcmp import load_reference, run_table
+    from .common import graph_rewrite, rewriter
+
+    if "yvref.c13" not in model.modules:
+        load_reference(model, "yvref.c13", "c13_ref.py")
+    PROB = ("cls", f"{DSL}.Probability")
+    DIST = ("cls", f"{DSL}.Distribution")
+    EX = ("cls", EXPR)
+    AP = ("cls", "y0.mutate.utils.Applier")
+    sa = SetAlg(rewriter(graph_rewrite))
+
+    def mk(model_, prims):
+        return lambda: Evaluator(model_, primitives=set(DSL_PRIMS) | set(prims), prim_methods={
+            "_new", "given", "__or__", "uncondition", "normalize_marginalize", "apply_expression", "apply_sum", "apply_product", "apply_fraction",
+            "apply_probability", "apply_q"})
+
+    CH = "y0.mutate.chain"
+    table = [
+        ("R13.5", f"{CH}.chain_expand", "chain", {"p": PROB, "reorder": ("const", False), "ordering": None}, (), "reorder=False",
+         "chain rule: Π_i P(c_i | c_(i+1).., original parents), every factor rebuilt through p._new, the children used as given"),
+        ("R13.5", f"{CH}.chain_expand", "chain", {"p": PROB, "reorder": ("const", True), "ordering": None}, (), "reorder=True",
+         "chain rule over the children filtered from the requested ordering; an ordering that misses a child is refused"),
+        ("R13.5", f"{CH}.fraction_expand", "as_fraction", {"p": PROB}, (), "P(C,Pa)/P(Pa)", "P(C | Pa) = P(C, Pa) / P(Pa) of the same kind; unchanged without parents"),
+        ("R13.5", f"{CH}.bayes_expand", "bayes", {"p": PROB}, (), "P(C,Pa)/ΣP", "P(C | Pa) = P(C, Pa) / Σ_C P(C, Pa); unchanged without parents"),
+        ("R13.5", f"{DSL}.Distribution.uncondition", "joint_of", {"self": DIST}, (), "children+parents", "the joint over children and parents", {"impl_self_type": DIST}),
+        ("R13.5", "y0.mutate.contract.contract", "contracted", {"expression": EX}, (), "guard-and-result",
+         "P(N)/P(D) is contracted to P(N∖D | N∩D) only for two unconditioned probabilities OF THE SAME KIND (class, population) with D ⊆ N; rebuilt through numerator._new"),
+        ("R13.5", "y0.mutate.utils.Applier.apply_expression", "visit", {"self": AP, "expression": EX}, (), "dispatch",
+         "each node kind goes to its own handler; anything else is returned unchanged", {"impl_self_type": AP}),
+        ("R13.5", "y0.mutate.utils.Applier.apply_sum", "visit_sum", {"self": AP, "expression": ("cls", f"{DSL}.Sum")}, (), "roles",
+         "a Sum is rebuilt from its visited summand and its own ranges", {"impl_self_type": AP}),
+        ("R13.5", "y0.mutate.utils.Applier.apply_product", "visit_product", {"self": AP, "expression": ("cls", f"{DSL}.Product")}, (), "roles",
+         "a Product is rebuilt from every visited factor", {"impl_self_type": AP}),
+        ("R13.5", "y0.mutate.utils.Applier.apply_fraction", "visit_fraction", {"self": AP, "expression": ("cls", f"{DSL}.Fraction")}, (), "roles",
+         "a Fraction is rebuilt from its visited numerator and its visited denominator, each in its own place", {"impl_self_type": AP}),
+    ]
+    run_table(model, rep, table, "yvref.c13", mk, sa, construct=construct, loc=loc)
 
 
 def _bound_rules(model: Model, rep: Report, f) -> None:
